@@ -171,11 +171,19 @@ func redactCommand(cmd *orderedmap.OrderedMap[string, any], shouldEagerRedact bo
 	if update, ok := cmd.Get("update"); ok {
 		if updateMap, ok := update.(*orderedmap.OrderedMap[string, any]); ok {
 			cmd.Set("update", redactQueryValues(updateMap, shouldEagerRedact, false, nil, []string{}))
+		} else if updateArr, ok := update.([]any); ok {
+			// update given as an aggregation pipeline
+			cmd.Set("update", redactArrayValues(updateArr, shouldEagerRedact, false, false, []string{}))
 		}
 	}
 	if updates, ok := cmd.Get("updates"); ok {
 		if updatesArr, ok := updates.([]any); ok {
 			cmd.Set("updates", redactArrayValues(updatesArr, shouldEagerRedact, false, false, []string{}))
+		}
+	}
+	if deletes, ok := cmd.Get("deletes"); ok {
+		if deletesArr, ok := deletes.([]any); ok {
+			cmd.Set("deletes", redactArrayValues(deletesArr, shouldEagerRedact, false, false, []string{}))
 		}
 	}
 	if update, ok := cmd.Get("q"); ok {
@@ -186,6 +194,9 @@ func redactCommand(cmd *orderedmap.OrderedMap[string, any], shouldEagerRedact bo
 	if update, ok := cmd.Get("u"); ok {
 		if updateMap, ok := update.(*orderedmap.OrderedMap[string, any]); ok {
 			cmd.Set("u", redactQueryValues(updateMap, shouldEagerRedact, false, nil, []string{}))
+		} else if updateArr, ok := update.([]any); ok {
+			// update given as an aggregation pipeline
+			cmd.Set("u", redactArrayValues(updateArr, shouldEagerRedact, false, false, []string{}))
 		}
 	}
 	if _, isInsert := cmd.Get("insert"); isInsert {
